@@ -49,10 +49,24 @@ def after(ctx, rng, desc):
     """for a share of the multiply-accumulate cases the accumulator is chosen so that the RESULT lands on a boundary
     (0, 2^31, 2^32, 2^63, all ones: a sum that wraps to exactly zero, crosses the sign bit, carries out of the low word):
     one reference step gives result - accumulator, the accumulator is then replaced by target - that"""
+    from vf.ref import step as RS
+    if desc['kind'] in RS.tables():
+        row0 = RS.tables()[desc['kind']].match(int(desc['word'], 16))
+        if row0 is not None and row0.sem in ('sdiv', 'udiv') and rng.random() < 0.35:
+            # divisor zero (result 0, or the ARMv7-R trap) and INT_MIN / -1
+            w0 = int(desc['word'], 16)
+            m_ = w0 & 0xF if desc['kind'] != 'arm' else (w0 >> 8) & 0xF
+            n_ = (w0 >> 16) & 0xF if desc['kind'] != 'arm' else w0 & 0xF
+            if m_ != 15 and n_ != 15:
+                if rng.random() < 0.7:
+                    ctx.cpu.registers.set(m_, 0)
+                else:
+                    ctx.cpu.registers.set(n_, 0x80000000)
+                    ctx.cpu.registers.set(m_, 0xFFFFFFFF)
+            return
     if rng.random() > 0.3:
         return
     from vf import observe
-    from vf.ref import step as RS
     cpu = ctx.cpu
     verdict, ref, info = RS.step(observe.snapshot(cpu), ctx.cfg)
     ops = info.get('ops') or {}
